@@ -80,7 +80,54 @@ func (fl *Flow) edgeFacts(b *cfg.Block, i int) []Fact {
 	if isCaseExpr(fl, b, last) {
 		return nil
 	}
-	return condFacts(last, i == 0)
+	return fl.expandPredicates(condFacts(last, i == 0), 0)
+}
+
+// expandPredicates: a fact about a call of a same-package predicate - a function without parameters whose body is the
+// single statement `return <bool expr>` over receiver fields - also gives the facts of that expression
+// (`if f.isReadOnly()` is read like `if f.readOnly`). Field-based rules identify fields by object, so the receiver's
+// name does not matter. The call fact itself is kept.
+func (fl *Flow) expandPredicates(facts []Fact, depth int) []Fact {
+	if depth >= 2 {
+		return facts
+	}
+	out := facts
+	for _, ft := range facts {
+		call, ok := ast.Unparen(ft.E).(*ast.CallExpr)
+		if !ok || len(call.Args) != 0 {
+			continue
+		}
+		fn, ok := calleeObj(fl.info, call).(*types.Func)
+		if !ok || fn.Pkg() == nil || fl.F.Pkg.Types == nil || fn.Pkg() != fl.F.Pkg.Types {
+			continue
+		}
+		g := fl.c.byObj[fn]
+		if g == nil || g.Decl == nil || g.Body() == nil || len(g.Body().List) != 1 {
+			continue
+		}
+		ret, ok := g.Body().List[0].(*ast.ReturnStmt)
+		if !ok || len(ret.Results) != 1 {
+			continue
+		}
+		if tv, ok := fl.info.Types[ret.Results[0]]; !ok || !isBool(tv.Type) {
+			continue
+		}
+		// the body may mention only the receiver (no globals that could differ, no calls with effects)
+		pure := true
+		ast.Inspect(ret.Results[0], func(n ast.Node) bool {
+			if c2, ok := n.(*ast.CallExpr); ok {
+				if f2, ok := calleeObj(fl.info, c2).(*types.Func); !ok || fl.c.byObj[f2] == nil || len(c2.Args) != 0 {
+					pure = false
+				}
+			}
+			return pure
+		})
+		if !pure {
+			continue
+		}
+		out = append(out, fl.expandPredicates(condFacts(ret.Results[0], ft.Pos), depth+1)...)
+	}
+	return out
 }
 
 func isBool(t types.Type) bool {
@@ -365,4 +412,41 @@ func branchReturnsError(info *types.Info, body *ast.BlockStmt) bool {
 		return false
 	}
 	return !returnsNil(info, ret)
+}
+
+// sentinelFact: does the fact establish `<something> == sentinel` (equal=true) or `!= sentinel` (equal=false)?
+// Recognises `x == S`, `S == x`, `x != S` and errors.Is(x, S), with the fact's polarity applied.
+func sentinelFact(info *types.Info, ft Fact, sentinel types.Object) (known, equal bool) {
+	k, eq := sentinelCond(info, ft.E, sentinel)
+	if !k {
+		return false, false
+	}
+	return true, eq == ft.Pos
+}
+
+// sentinelCond: the condition itself (without polarity): known, and whether it reads "== sentinel".
+func sentinelCond(info *types.Info, e ast.Expr, sentinel types.Object) (known, eq bool) {
+	if sentinel == nil {
+		return false, false
+	}
+	isS := func(x ast.Expr) bool {
+		switch s := ast.Unparen(x).(type) {
+		case *ast.SelectorExpr:
+			return info.Uses[s.Sel] == sentinel
+		case *ast.Ident:
+			return info.Uses[s] == sentinel
+		}
+		return false
+	}
+	switch x := ast.Unparen(e).(type) {
+	case *ast.BinaryExpr:
+		if (x.Op == token.EQL || x.Op == token.NEQ) && (isS(x.X) || isS(x.Y)) {
+			return true, x.Op == token.EQL
+		}
+	case *ast.CallExpr:
+		if isPkgFunc(calleeObj(info, x), "errors", "Is") && len(x.Args) == 2 && isS(x.Args[1]) {
+			return true, true
+		}
+	}
+	return false, false
 }
